@@ -68,7 +68,7 @@ def utilisation(tier, seed, binaries):
     return [], [], info
 
 
-_BBR_N = {"quick": 560000, "thorough": 2000000}
+_BBR_N = {"quick": 470000, "thorough": 2000000}
 
 CFG = {
     "props_module": "Hy.Props.C12",
@@ -81,6 +81,10 @@ CFG = {
         {"mod": "core", "component": "pnq", "driver": "pnq", "reset_re": "^reset",
          "n": {"quick": 10000, "thorough": 400000}},
         {"mod": "core", "component": "bbr", "driver": "bbr", "reset_re": "^new", "n": _BBR_N},
+        # long fat loss-free paths (window reaches the 20000-packet cap): control logic replayed with RECORDED
+        # sampler outputs (driver bbrcore) — the list-backed queue model would be slow with 20000 packets in flight
+        {"mod": "core", "component": "bbrfat", "driver": "bbrcore", "reset_re": "^new",
+         "n": {"quick": 90000, "thorough": 900000}},
     ] + [
         # thorough tier: 20 x 1000 traces with different seeds (each chunk's files are overwritten by the next)
         {"mod": "core", "component": "bbr", "driver": "bbr", "reset_re": "^new", "seed_add": 1000 * k,
